@@ -252,6 +252,36 @@ def rule_dedup_all(ctx: Ctx) -> None:
     eq = [c for c in calls_in(fn) if call_name(c) in ("np.array_equal", "nx.utils.graphs_equal") and len(c.args) == 2
           and all(isinstance(a, ast.Subscript) and isinstance(a.value, ast.Name) for a in c.args)]
     if not eq:
+        # the filter may live in a helper that returns a new, de-duplicated list: U = helper(L)
+        for a in [x for x in fn.body if isinstance(x, ast.Assign) and isinstance(x.value, ast.Call) and isinstance(x.value.func, ast.Name)
+                  and len(x.value.args) == 1 and isinstance(x.value.args[0], ast.Name) and isinstance(x.targets[0], ast.Name)]:
+            hf = m.find(a.value.func.id)
+            if not isinstance(hf, ast.FunctionDef):
+                continue
+            heq = [c for c in calls_in(hf) if call_name(c) in ("np.array_equal", "nx.utils.graphs_equal") and len(c.args) == 2]
+            if not heq:
+                continue
+            P = func_params(hf)[0]
+            comps = [v for v in ast.walk(hf) if isinstance(v, ast.ListComp) and len(v.generators) == 1 and norm(v.generators[0].iter) == P
+                     and any(isinstance(x, ast.Constant) and x.value == "g" for x in ast.walk(v.elt))]
+            hret = [r for r in ast.walk(hf) if isinstance(r, ast.Return) and r.value is not None]
+            if not comps or any(c.generators[0].ifs for c in comps) or len(hret) != 1:
+                raise AnalysisError(f"{hf.name}: duplicate filter helper not recognised")
+            ctx.touch(m, hf)
+            ctx.ok("dedup.covers-all", m, comps[0], what=f"{hf.name} compares the graph of every entry of its argument")
+            L, U = a.value.args[0].id, a.targets[0].id
+            stale = [x for st in fn.body if st.lineno > a.lineno for x in ast.walk(st) if isinstance(x, ast.Name) and x.id == L and isinstance(x.ctx, ast.Load)]
+            if L != U and stale:
+                ctx.fail("dedup.covers-all", m, stale[0],
+                         f"solve() filters `{L}` into the new list `{U}` but still reads the unfiltered `{L}` afterwards (line {stale[0].lineno}): "
+                         f"whatever is built from it (the result table, the return value) lists the same graph more than once",
+                         func="AlternateTargetSolver.solve", construct=f"solve: unfiltered `{L}` read after the duplicate filter")
+            elif res not in (U, L):
+                ctx.fail("dedup.covers-all", m, rets[-1], f"solve() returns `{res}`, not the de-duplicated list `{U}`", func="AlternateTargetSolver.solve",
+                         construct="solve: returns a list other than the filtered one")
+            else:
+                ctx.ok("dedup.covers-all", m, a, what=f"everything after the filter reads `{U}`")
+            return
         ctx.fail("dedup.covers-all", m, fn, "solve() no longer compares the listed graphs of its result entries pairwise (duplicate filter removed)",
                  func="AlternateTargetSolver.solve", construct="solve: duplicate filter missing")
         return
@@ -303,13 +333,64 @@ def rule_str_to_op(ctx: Ctx) -> None:
         else:
             ctx.fail("vocab.gates", m, fn, f"str_to_op pairs gate name '{nm}' with ops.{cn}, which denotes a different Clifford",
                      func="str_to_op", construct=f"str_to_op: '{nm}' -> {cn}")
+    # gates of one qubit packed into a OneQubitGateWrapper: the wrapper's list is a matrix product (last element acts first), the gate
+    # tuples are in application order (first element acts first) — a per-qubit list accumulated by append must be reversed when packed
+    gp = func_params(fn)[0]
+    for w in [c for c in calls_in(fn) if (call_name(c) or "").split(".")[-1] == "OneQubitGateWrapper" and c.args]:
+        from .c09 import _strip_rev
+        inner, d = _strip_rev(w.args[0])
+        acc_forward = False
+        src = inner
+        # `for q, gs in D.items()` -> the values of D
+        if isinstance(inner, ast.Name):
+            for lp in [x for x in ast.walk(fn) if isinstance(x, (ast.comprehension, ast.For))]:
+                tgt, it = lp.target, lp.iter
+                if isinstance(tgt, ast.Tuple) and any(isinstance(e, ast.Name) and e.id == inner.id for e in tgt.elts) and isinstance(it, ast.Call) and call_attr(it) == "items":
+                    src = it.func.value
+        dn = norm(src)
+        for lp in [x for x in ast.walk(fn) if isinstance(x, ast.For) and norm(x.iter) == gp]:
+            for c in calls_in(lp):
+                if call_attr(c) == "append" and dn in norm(c.func.value):
+                    acc_forward = True
+        if isinstance(inner, (ast.List, ast.Tuple)) and len(inner.elts) <= 1:
+            ctx.ok("order.wrapper", m, w, what="single-gate wrapper")
+        elif acc_forward and d == 1:
+            ctx.fail("order.wrapper", m, w,
+                     f"str_to_op packs the gates of a qubit into `{short(w, 70)}` in the order of the gate list; the list is in application order "
+                     f"(first tuple acts first) while a OneQubitGateWrapper applies its *last* operation first, so two or more non-commuting gates "
+                     f"on one photon (H then P) are applied reversed", func="str_to_op", construct="str_to_op: wrapper packed in application order")
+        elif acc_forward and d == -1:
+            ctx.ok("order.wrapper", m, w, what="per-qubit gates reversed into product order")
+        else:
+            raise AnalysisError(f"str_to_op: cannot tell the order of the operations packed into `{short(w, 60)}`")
     handled = set(names)
     tables.rule_vocab(ctx, "vocab.gates",
                       [(LCC, "lc_check"), (LCC, "converter_gate_list"), (SRC, "state_to_graph"), (SRC, "_phase_correction")],
                       "str_to_op", handled, extra_tokens=tables.gl22_tokens(repo))
 
 
+def _edit_dedup_helper(src: str) -> str:
+    """the in-place duplicate filter of solve() becomes a helper returning a new list; the result table still reads the old list"""
+    import re
+    a = src.index('        adj_list = [nx.to_numpy_array(result[1]["g"]) for result in results_list]\n')
+    b = src.index('            del results_list[index]\n') + len('            del results_list[index]\n')
+    out = src[:a] + '        unique_results = _drop_repeated_graphs(results_list)\n' + src[b:]
+    if out.count('        return results_list\n') != 1:
+        raise LookupError('return results_list')
+    out = out.replace('        return results_list\n', '        return unique_results\n')
+    out += ('\n\ndef _drop_repeated_graphs(results_list):\n'
+            '    adj_list = [nx.to_numpy_array(result[1]["g"]) for result in results_list]\n'
+            '    kept = []\n'
+            '    for i, adj in enumerate(adj_list):\n'
+            '        if not any(np.array_equal(adj, adj_list[j]) for j in kept):\n'
+            '            kept.append(i)\n'
+            '    return [results_list[i] for i in kept]\n')
+    return out
+
+
 KNOCKOUTS = [
+    Knockout("str-to-op-wrapper-application-order", LCC, sub_once("        operations_list = []\n        for gate in gate_tuples:\n            op_index = name_list.index(gate[0])\n            operations_list.append(ops_list[op_index](register=gate[1], reg_type=\"p\"))\n", "        per_qubit = {}\n        for gate in gate_tuples:\n            per_qubit.setdefault(gate[1], []).append(ops_list[name_list.index(gate[0])])\n        operations_list = [ops.OneQubitGateWrapper(gs, register=q, reg_type=\"p\") for q, gs in per_qubit.items()]\n"), "order.wrapper", "application order"),
+    Knockout("dedup-helper-result-from-unfiltered", ATS, _edit_dedup_helper, "dedup.covers-all", "unfiltered"),
     Knockout("relabel-map-swapped", "graphiq/utils/relabel_module.py", sub_once("    GM = isomorphism.GraphMatcher(g1, g2)", "    GM = isomorphism.GraphMatcher(g2, g1)"), "relabel.map-direction", "swapped"),
     Knockout("relabel-map-identity", "graphiq/utils/relabel_module.py", sub_once('return {**{-1: "self"}, **dict(zip(g1.nodes(), g2.nodes()))}', 'return {**{-1: "self"}, **dict(zip(g1.nodes(), g1.nodes()))}'), "relabel.map-self", "not the position pairing"),
     Knockout("dedup-filtered", ATS, sub_once('adj_list = [nx.to_numpy_array(result[1]["g"]) for result in results_list]', 'adj_list = [nx.to_numpy_array(result[1]["g"]) for result in results_list if result[1]["score"] > 0]'), "dedup.covers-all", "does not see every entry"),
